@@ -15,8 +15,8 @@ use serde::{Deserialize, Serialize};
 use serde_json::Value;
 
 pub const RULE: &str = "cases: input sequences over both connection roles of one peer (connect, OPEN with expected/unexpected AS, KEEPALIVE, UPDATE, \
-NOTIFICATION, ROUTE-REFRESH, both timers, disconnect, admin shutdown, update-sent) for both orderings of local/remote BGP identifier; \
-bounded-exhaustive up to a depth plus long random sequences biased towards progress. After every input the state of both roles and the kind of \
+NOTIFICATION, ROUTE-REFRESH, both timers, disconnect, admin shutdown, update-sent) for both orderings of local/remote BGP identifier over 10 identifier pairs chosen so that byte-swapped, signed, low-octet and string comparisons order them wrongly (plus random pairs); \
+bounded-exhaustive up to a depth (depth 4 for every identifier pair: the shortest collision takes four inputs) plus long random sequences biased towards progress. After every input the state of both roles and the kind of \
 session-down (FSM error with pre-state, hold expiry, bad peer AS, collision Cease) is compared with the reference model. \
 non-trivial := the sequence reaches OpenConfirm on one role while the other role is in OpenSent or beyond (collision territory) or contains an FSM error \
 in OpenConfirm/Established; distinct := distinct sequence";
@@ -56,11 +56,34 @@ pub const ALL_SYMS: [Sym; 12] = [
 pub struct Case {
     /// local identifier > remote identifier ?
     pub local_id_higher: bool,
+    /// the two BGP identifiers (lower, higher) as host-order integers; which speaker has which is
+    /// `local_id_higher`
+    #[serde(default = "default_ids")]
+    pub ids: (u32, u32),
     pub local_hold: u16,
     pub remote_hold: u16,
     /// (passive role?, symbol)
     pub seq: Vec<(bool, Sym)>,
 }
+
+fn default_ids() -> (u32, u32) {
+    (0x0a00_0001, 0x0a00_0002)
+}
+
+/// identifier pairs whose order differs under the usual wrong comparisons: byte-swapped,
+/// signed, low octet / low half only, string order of the dotted form
+pub const ID_PAIRS: [(u32, u32); 10] = [
+    (0x0a00_0001, 0x0a00_0002),
+    (0x0100_0002, 0x0200_0001),
+    (1, 256),
+    (0x0000_00ff, 0x0000_0100),
+    (0x7fff_ffff, 0x8000_0000),
+    (1, 0xdfff_ffff),
+    (0x0001_ffff, 0x0002_0000),
+    (0x0900_0000, 0x0a00_0000),
+    (0xc0a8_0002, 0xc0a8_000a),
+    (0xdfff_fffe, 0xdfff_ffff),
+];
 
 pub const LOCAL_AS: u32 = 65000;
 pub const REMOTE_AS: u32 = 65001;
@@ -113,12 +136,13 @@ fn mstate_of(s: State) -> Option<MState> {
     })
 }
 
+/// the state as an FSM Error NOTIFICATION carries it (RFC 6608 §3 sub-codes)
 fn state_code(s: MState) -> u8 {
     match s {
         MState::Idle => 0,
-        MState::OpenSent => 3,
-        MState::OpenConfirm => 4,
-        MState::Established => 5,
+        MState::OpenSent => 1,
+        MState::OpenConfirm => 2,
+        MState::Established => 3,
     }
 }
 
@@ -155,8 +179,90 @@ fn classify_down(reason: &SessionDownReason, notif: &Option<bgp::Message>) -> St
     format!("{r}/{n}")
 }
 
+struct Expect {
+    down: [Option<Down>; 2],
+    close: bool,
+    established: bool,
+}
+
+/// the reference model: one input for the connection of role index `r` (0 = active, 1 = passive)
+fn model_step(m: &mut [MState; 2], r: usize, sym: Sym, local_id_higher: bool) -> Expect {
+    let o = 1 - r;
+    let mut expect_down: [Option<Down>; 2] = [None, None];
+    let mut expect_close = false;
+    let mut expect_established = false;
+    match (sym, m[r]) {
+        (Sym::Connected, MState::Idle) => m[r] = MState::OpenSent,
+        (Sym::Connected, _) => expect_close = true,
+        (_, MState::Idle) => {} // no connection in this direction: nothing may happen
+        (Sym::OpenOk, MState::OpenSent) => {
+            m[r] = MState::OpenConfirm;
+            // collision resolution (RFC 4271 §6.8 as restated by the property)
+            match m[o] {
+                MState::Established => {
+                    m[r] = MState::Idle;
+                    expect_down[r] = Some(Down::Collision);
+                }
+                MState::OpenConfirm => {
+                    // survivor = connection initiated by the higher identifier:
+                    // local higher => the active (locally initiated) one survives
+                    let survivor = if local_id_higher { 0 } else { 1 };
+                    let loser = 1 - survivor;
+                    m[loser] = MState::Idle;
+                    expect_down[loser] = Some(Down::Collision);
+                }
+                _ => {}
+            }
+        }
+        (Sym::OpenBadAs, MState::OpenSent) => {
+            m[r] = MState::Idle;
+            expect_down[r] = Some(Down::BadPeerAs);
+        }
+        (Sym::OpenOk | Sym::OpenBadAs, s) => {
+            m[r] = MState::Idle;
+            expect_down[r] = Some(Down::FsmError(state_code(s)));
+        }
+        (Sym::Keepalive, MState::OpenConfirm) => {
+            m[r] = MState::Established;
+            expect_established = true;
+        }
+        (Sym::Keepalive, MState::Established) => {}
+        (Sym::Keepalive, s) => {
+            m[r] = MState::Idle;
+            expect_down[r] = Some(Down::FsmError(state_code(s)));
+        }
+        (Sym::Update | Sym::RouteRefresh, MState::Established) => {}
+        (Sym::Update | Sym::RouteRefresh, s) => {
+            m[r] = MState::Idle;
+            expect_down[r] = Some(Down::FsmError(state_code(s)));
+        }
+        (Sym::Notification, _) => {
+            m[r] = MState::Idle;
+            expect_down[r] = Some(Down::Remote);
+        }
+        (Sym::HoldTimer, _) => {
+            m[r] = MState::Idle;
+            expect_down[r] = Some(Down::HoldExpired);
+        }
+        (Sym::Disconnected, _) => {
+            m[r] = MState::Idle;
+            expect_down[r] = Some(Down::Io);
+        }
+        (Sym::AdminShutdown, _) => {
+            m[r] = MState::Idle;
+            expect_down[r] = Some(Down::Admin);
+        }
+        (Sym::KeepaliveTimer | Sym::UpdateSent, _) => {}
+    }
+    Expect { down: expect_down, close: expect_close, established: expect_established }
+}
+
 pub fn check(c: &Case) -> CheckResult {
-    let (local_id, remote_id) = if c.local_id_higher { (0x0a00_0002u32, 0x0a00_0001u32) } else { (0x0a00_0001u32, 0x0a00_0002u32) };
+    let (lo, hi) = (c.ids.0.min(c.ids.1), c.ids.0.max(c.ids.1));
+    if lo == 0 || lo == hi {
+        return Ok(CaseInfo::trivial().class("identifiers-outside-statement"));
+    }
+    let (local_id, remote_id) = if c.local_id_higher { (hi, lo) } else { (lo, hi) };
     let mut fsm = PeerFsm::new(local_id, LOCAL_AS, vec![bgp::Capability::FourOctetAsNumber(LOCAL_AS)], c.local_hold as u64, REMOTE_AS, FnvHashMap::default());
     // model state: index 0 = active, 1 = passive
     let mut m = [MState::Idle, MState::Idle];
@@ -167,72 +273,7 @@ pub fn check(c: &Case) -> CheckResult {
         let o = 1 - r;
         let pre = m;
         // ---- reference model ------------------------------------------------
-        let mut expect_down: [Option<Down>; 2] = [None, None];
-        let mut expect_close = false;
-        let mut expect_established = false;
-        match (sym, m[r]) {
-            (Sym::Connected, MState::Idle) => m[r] = MState::OpenSent,
-            (Sym::Connected, _) => expect_close = true,
-            (_, MState::Idle) => {} // no connection in this direction: nothing may happen
-            (Sym::OpenOk, MState::OpenSent) => {
-                m[r] = MState::OpenConfirm;
-                // collision resolution (RFC 4271 §6.8 as restated by the property)
-                match m[o] {
-                    MState::Established => {
-                        m[r] = MState::Idle;
-                        expect_down[r] = Some(Down::Collision);
-                    }
-                    MState::OpenConfirm => {
-                        // survivor = connection initiated by the higher identifier:
-                        // local higher => the active (locally initiated) one survives
-                        let survivor = if c.local_id_higher { 0 } else { 1 };
-                        let loser = 1 - survivor;
-                        m[loser] = MState::Idle;
-                        expect_down[loser] = Some(Down::Collision);
-                    }
-                    _ => {}
-                }
-            }
-            (Sym::OpenBadAs, MState::OpenSent) => {
-                m[r] = MState::Idle;
-                expect_down[r] = Some(Down::BadPeerAs);
-            }
-            (Sym::OpenOk | Sym::OpenBadAs, s) => {
-                m[r] = MState::Idle;
-                expect_down[r] = Some(Down::FsmError(state_code(s)));
-            }
-            (Sym::Keepalive, MState::OpenConfirm) => {
-                m[r] = MState::Established;
-                expect_established = true;
-            }
-            (Sym::Keepalive, MState::Established) => {}
-            (Sym::Keepalive, s) => {
-                m[r] = MState::Idle;
-                expect_down[r] = Some(Down::FsmError(state_code(s)));
-            }
-            (Sym::Update | Sym::RouteRefresh, MState::Established) => {}
-            (Sym::Update | Sym::RouteRefresh, s) => {
-                m[r] = MState::Idle;
-                expect_down[r] = Some(Down::FsmError(state_code(s)));
-            }
-            (Sym::Notification, _) => {
-                m[r] = MState::Idle;
-                expect_down[r] = Some(Down::Remote);
-            }
-            (Sym::HoldTimer, _) => {
-                m[r] = MState::Idle;
-                expect_down[r] = Some(Down::HoldExpired);
-            }
-            (Sym::Disconnected, _) => {
-                m[r] = MState::Idle;
-                expect_down[r] = Some(Down::Io);
-            }
-            (Sym::AdminShutdown, _) => {
-                m[r] = MState::Idle;
-                expect_down[r] = Some(Down::Admin);
-            }
-            (Sym::KeepaliveTimer | Sym::UpdateSent, _) => {}
-        }
+        let Expect { down: expect_down, close: expect_close, established: expect_established } = model_step(&mut m, r, *sym, c.local_id_higher);
 
         // ---- real FSM ---------------------------------------------------------
         let outs = fsm.process(role_of(*passive), input_of(*sym, c.remote_hold, remote_id));
@@ -346,10 +387,10 @@ pub fn check(c: &Case) -> CheckResult {
             info = info.class(if pre[o] == MState::Established { "collision/established-survives" } else { "collision/both-openconfirm" });
         }
         if let Some(Down::FsmError(code)) = &expect_down[r] {
-            if *code >= 4 {
+            if *code >= 2 {
                 info.nontrivial = true;
             }
-            info = info.class(match code { 3 => "fsm-error/opensent", 4 => "fsm-error/openconfirm", _ => "fsm-error/established" });
+            info = info.class(match code { 1 => "fsm-error/opensent", 2 => "fsm-error/openconfirm", _ => "fsm-error/established" });
         }
         if expect_established {
             info = info.class("reached-established");
@@ -385,14 +426,15 @@ fn arb_sym() -> impl Strategy<Value = Sym> {
 pub fn arb_case(max_len: usize) -> impl Strategy<Value = Case> {
     (
         any::<bool>(),
+        prop_oneof![3 => proptest::sample::select(ID_PAIRS.to_vec()), 1 => (1u32..=u32::MAX, 1u32..=u32::MAX)],
         prop_oneof![Just(0u16), Just(3), Just(90)],
         prop_oneof![Just(0u16), Just(3), Just(90), Just(65535)],
         proptest::collection::vec((any::<bool>(), arb_sym()), 1..=max_len),
     )
-        .prop_map(|(local_id_higher, local_hold, remote_hold, seq)| Case { local_id_higher, local_hold, remote_hold, seq })
+        .prop_map(|(local_id_higher, ids, local_hold, remote_hold, seq)| Case { local_id_higher, ids, local_hold, remote_hold, seq })
 }
 
-fn exhaustive(depth: usize, local_id_higher: bool) -> impl Iterator<Item = Case> + Send {
+fn exhaustive(depth: usize, local_id_higher: bool, ids: (u32, u32)) -> impl Iterator<Item = Case> + Send {
     let alphabet: Vec<(bool, Sym)> = [false, true].iter().flat_map(|p| ALL_SYMS.iter().map(move |s| (*p, *s))).collect();
     let n = alphabet.len() as u64;
     let total: u64 = (1..=depth as u32).map(|d| n.pow(d)).sum();
@@ -408,7 +450,7 @@ fn exhaustive(depth: usize, local_id_higher: bool) -> impl Iterator<Item = Case>
             seq.push(alphabet[(k % n) as usize]);
             k /= n;
         }
-        Case { local_id_higher, local_hold: 90, remote_hold: 90, seq }
+        Case { local_id_higher, ids, local_hold: 90, remote_hold: 90, seq }
     })
 }
 
@@ -417,12 +459,355 @@ pub fn run(r: &Run) {
     r.assume("OPENs carry the same remote identifier on both connections (one remote speaker) and it differs from the local identifier (equal identifiers are outside the statement)");
     r.assume("hold-time / identifier validity of a received OPEN is enforced by the wire decoder (C03/C05 territory); the FSM input is a decoded OPEN");
     let depth = r.tier.pick(4, 5);
-    r.exhaustive(if depth == 4 { "exhaustive-depth4-local-higher" } else { "exhaustive-depth5-local-higher" }, exhaustive(depth, true), check);
-    r.exhaustive(if depth == 4 { "exhaustive-depth4-remote-higher" } else { "exhaustive-depth5-remote-higher" }, exhaustive(depth, false), check);
+    r.exhaustive(if depth == 4 { "exhaustive-depth4-local-higher" } else { "exhaustive-depth5-local-higher" }, exhaustive(depth, true, ID_PAIRS[0]), check);
+    r.exhaustive(if depth == 4 { "exhaustive-depth4-remote-higher" } else { "exhaustive-depth5-remote-higher" }, exhaustive(depth, false, ID_PAIRS[0]), check);
+    // the same for every identifier pair at depth 4 (the shortest collision takes four inputs)
+    for (i, ids) in ID_PAIRS.iter().enumerate().skip(1) {
+        for higher in [true, false] {
+            let name: &'static str = Box::leak(format!("exhaustive-depth4-ids{}-{}", i, if higher { "local-higher" } else { "remote-higher" }).into_boxed_str());
+            r.exhaustive(name, exhaustive(4, higher, *ids), check);
+        }
+    }
     r.prop("random-sequences", r.tier.pick(200_000, 4_000_000), || arb_case(r.tier.pick(40, 80)), check);
+    r.assume(DRIVER_RULE);
+    r.prop("driver-sequences", r.tier.pick(6_000, 200_000), || arb_driver_case(r.tier.pick(12, 24)), check_driver);
 }
 
-pub fn replay(_sub: &str, case: &Value) -> Result<CheckResult, String> {
+pub fn replay(sub: &str, case: &Value) -> Result<CheckResult, String> {
     let c: Case = decode_case(case)?;
+    if sub.starts_with("driver") {
+        return Ok(check_driver(&c));
+    }
     Ok(check(&c))
+}
+
+// ---------------------------------------------------------------------------
+// driver level: the same input sequences (those a remote speaker can produce) over real
+// loopback connections into the daemon's accept_connection + PeerSession::run, both roles
+// of one peer sharing the daemon's ConnArbiter. Reference: the same model.
+// ---------------------------------------------------------------------------
+
+pub const DRIVER_RULE: &str = "driver-sequences: sequences over both roles of one peer of the inputs a remote speaker can cause (new TCP connection, OPEN with expected / unexpected AS, KEEPALIVE, UPDATE, NOTIFICATION, connection loss) \
+for the same identifier pairs; every connection is a real loopback TCP connection handed to the daemon's accept_connection (as its inbound or as its own outbound connection) whose PeerSession::run is spawned, so collisions go through ConnArbiter and the sessions' close channels. \
+After every input (once the daemon has read it): the FSM state of both connection slots == reference model; a connection the model keeps is still open and was sent no NOTIFICATION; a connection the model tears down was closed by the daemon after the NOTIFICATION the statement names \
+(Cease/collision to the loser, FSM error with the RFC 6608 sub-code of the state, Bad Peer AS); a new connection gets an OPEN with the configured AS and identifier, an accepted OPEN a KEEPALIVE; a second connection in a role already taken is closed without disturbing the first. non-trivial := as above";
+
+const DRIVER_SYMS: [Sym; 7] = [Sym::Connected, Sym::OpenOk, Sym::OpenBadAs, Sym::Keepalive, Sym::Update, Sym::Notification, Sym::Disconnected];
+
+const MARKER: [u8; 16] = [0xff; 16];
+
+fn wire_open(asn: u32, id: u32) -> Vec<u8> {
+    let mut body = vec![4u8];
+    body.extend_from_slice(&(if asn > 65535 { 23456u16 } else { asn as u16 }).to_be_bytes());
+    body.extend_from_slice(&90u16.to_be_bytes());
+    body.extend_from_slice(&id.to_be_bytes());
+    let mut cap = vec![65u8, 4];
+    cap.extend_from_slice(&asn.to_be_bytes());
+    body.push(2 + cap.len() as u8);
+    body.push(2);
+    body.push(cap.len() as u8);
+    body.extend_from_slice(&cap);
+    let mut m = MARKER.to_vec();
+    m.extend_from_slice(&((19 + body.len()) as u16).to_be_bytes());
+    m.push(1);
+    m.extend_from_slice(&body);
+    m
+}
+
+#[derive(Default, Debug, Clone)]
+struct Seen {
+    opens: Vec<(u32, u32)>,
+    keepalives: usize,
+    updates: usize,
+    notifications: Vec<(u8, u8)>,
+    closed: bool,
+}
+
+struct Tap {
+    client: tokio::net::TcpStream,
+    buf: Vec<u8>,
+    closed: bool,
+    _task: Option<tokio::task::JoinHandle<()>>,
+}
+
+impl Tap {
+    fn take(&mut self) -> Seen {
+        let mut seen = Seen::default();
+        let mut chunk = [0u8; 4096];
+        while !self.closed {
+            match self.client.try_read(&mut chunk) {
+                Ok(0) => self.closed = true,
+                Ok(n) => self.buf.extend_from_slice(&chunk[..n]),
+                Err(e) if e.kind() == std::io::ErrorKind::WouldBlock => break,
+                Err(_) => self.closed = true,
+            }
+        }
+        while self.buf.len() >= 19 {
+            let len = u16::from_be_bytes([self.buf[16], self.buf[17]]) as usize;
+            if len < 19 || self.buf.len() < len {
+                break;
+            }
+            let m: Vec<u8> = self.buf.drain(..len).collect();
+            match m[18] {
+                1 if m.len() >= 29 => {
+                    // AS from the four-octet capability if present, else the two-octet field
+                    let mut asn = u16::from_be_bytes([m[20], m[21]]) as u32;
+                    let id = u32::from_be_bytes([m[24], m[25], m[26], m[27]]);
+                    let mut p = 29;
+                    while p + 2 <= m.len() {
+                        let (t, l) = (m[p], m[p + 1] as usize);
+                        if t == 2 {
+                            let mut q = p + 2;
+                            while q + 2 <= (p + 2 + l).min(m.len()) {
+                                let (ct, cl) = (m[q], m[q + 1] as usize);
+                                if ct == 65 && cl == 4 && q + 6 <= m.len() {
+                                    asn = u32::from_be_bytes([m[q + 2], m[q + 3], m[q + 4], m[q + 5]]);
+                                }
+                                q += 2 + cl;
+                            }
+                        }
+                        p += 2 + l;
+                    }
+                    seen.opens.push((asn, id));
+                }
+                2 => seen.updates += 1,
+                3 => seen.notifications.push((m.get(19).copied().unwrap_or(0), m.get(20).copied().unwrap_or(0))),
+                4 => seen.keepalives += 1,
+                _ => {}
+            }
+        }
+        seen.closed = self.closed;
+        seen
+    }
+}
+
+async fn settle_io() {
+    for _ in 0..3 {
+        std::thread::sleep(std::time::Duration::from_micros(150));
+        for _ in 0..6 {
+            tokio::task::yield_now().await;
+        }
+    }
+}
+
+pub fn check_driver(c: &Case) -> CheckResult {
+    let rt = tokio::runtime::Builder::new_current_thread().enable_all().event_interval(1).build().map_err(|e| Failure::new("harness", e.to_string()))?;
+    rt.block_on(drive(c))
+}
+
+async fn drive(c: &Case) -> CheckResult {
+    use crate::event::verif::{AdmitRig, NeighborCfg};
+    use std::net::{IpAddr, Ipv4Addr};
+    use tokio::io::AsyncWriteExt;
+
+    let (lo, hi) = (c.ids.0.min(c.ids.1), c.ids.0.max(c.ids.1));
+    if lo == 0 || lo == hi {
+        return Ok(CaseInfo::trivial().class("identifiers-outside-statement"));
+    }
+    let (local_id, remote_id) = if c.local_id_higher { (hi, lo) } else { (lo, hi) };
+    let rid = Ipv4Addr::from(remote_id);
+    if rid.is_broadcast() || rid.is_multicast() {
+        // not a valid identifier for the OPEN decoder (RFC 4271 §6.2): outside "acceptable OPEN"
+        return Ok(CaseInfo::trivial().class("driver/remote-identifier-not-unicast"));
+    }
+    let src = IpAddr::V4(Ipv4Addr::new(127, 0, 7, 2));
+    let rig = AdmitRig::new(LOCAL_AS, None).await.map_err(|e| Failure::new("harness", e))?;
+    rig.set_router_id(Ipv4Addr::from(local_id)).await;
+    let cfg = NeighborCfg { addr: src, remote_asn: REMOTE_AS, local_asn: 0, rs_client: false, rr_client: false, cluster_id: None, admin_down: false, holdtime: 90, families: vec![(packet::Family::IPV4, 0)], prefix_limit: None, gr: None, llgr: None };
+    if !rig.add_neighbor(&cfg).await {
+        return Err(Failure::new("harness", format!("add_peer refuses {cfg:?}")));
+    }
+    let mut m = [MState::Idle, MState::Idle];
+    let mut taps: [Option<Tap>; 2] = [None, None];
+    let mut frames_written = 0u64;
+    let mut info = CaseInfo::trivial();
+
+    for (step, (passive, sym)) in c.seq.iter().enumerate() {
+        if !DRIVER_SYMS.contains(sym) {
+            continue;
+        }
+        let r = *passive as usize;
+        let o = 1 - r;
+        let pre = m;
+        let exp = model_step(&mut m, r, *sym, c.local_id_higher);
+        let ctx = |what: &str| format!("step {step} ({}, {sym:?}) pre-state active={:?} passive={:?}: {what}", if *passive { "inbound" } else { "outbound" }, pre[0], pre[1]);
+        let mut wrote = false;
+        let mut closed_by_us = false;
+        match sym {
+            Sym::Connected => {
+                let (view, mut conn) = rig.connect(src, r == 0).await.map_err(|e| Failure::new("harness", e))?;
+                let client = conn.client.take().ok_or_else(|| Failure::new("harness", "no client socket".to_string()))?;
+                let mut tap = Tap { client, buf: vec![], closed: false, _task: conn.task.take() };
+                if pre[r] == MState::Idle {
+                    if view.is_none() {
+                        return Err(Failure::new("driver-admission", ctx("a connection in a free role was not given a session")));
+                    }
+                    taps[r] = Some(tap);
+                } else {
+                    // the role is taken: the newcomer is closed, nothing else happens
+                    let mut closed = false;
+                    let mut extra = Seen::default();
+                    for _ in 0..200 {
+                        settle_io().await;
+                        let s = tap.take();
+                        extra.opens.extend(s.opens);
+                        if s.closed {
+                            closed = true;
+                            break;
+                        }
+                    }
+                    if view.is_some() || !closed || !extra.opens.is_empty() {
+                        return Err(Failure::new("driver-close", ctx(&format!("a second connection in a role already taken: session created = {}, closed = {closed}, OPENs sent on it = {}", view.is_some(), extra.opens.len()))));
+                    }
+                }
+            }
+            _ if pre[r] == MState::Idle => {}
+            Sym::Disconnected => {
+                taps[r] = None;
+                closed_by_us = true;
+            }
+            _ => {
+                let bytes = match sym {
+                    Sym::OpenOk => wire_open(REMOTE_AS, remote_id),
+                    Sym::OpenBadAs => wire_open(REMOTE_AS + 7, remote_id),
+                    Sym::Keepalive => [&MARKER[..], &[0, 19, 4]].concat(),
+                    Sym::Update => [&MARKER[..], &[0, 23, 2, 0, 0, 0, 0]].concat(),
+                    _ => [&MARKER[..], &[0, 21, 3, 6, 4]].concat(),
+                };
+                if let Some(t) = taps[r].as_mut()
+                    && t.client.write_all(&bytes).await.is_ok()
+                {
+                    wrote = true;
+                    frames_written += 1;
+                }
+            }
+        }
+        // the daemon has read the message and both slots have settled in the model's states
+        let mut seen = [Seen::default(), Seen::default()];
+        let mut states = None;
+        let mut waited = 0;
+        loop {
+            settle_io().await;
+            for i in 0..2 {
+                if let Some(t) = taps[i].as_mut() {
+                    let s = t.take();
+                    seen[i].opens.extend(s.opens);
+                    seen[i].keepalives += s.keepalives;
+                    seen[i].updates += s.updates;
+                    seen[i].notifications.extend(s.notifications);
+                    seen[i].closed |= s.closed;
+                }
+            }
+            let read = !wrote || rig.rx_frames(src).await >= frames_written;
+            states = rig.fsm_states(src).await;
+            let agree = states.is_some_and(|(a, p)| mstate_of(a) == Some(m[0]) && mstate_of(p) == Some(m[1]));
+            let downs_seen = (0..2).all(|i| exp.down[i].is_none() || taps[i].is_none() || seen[i].closed);
+            if read && agree && downs_seen {
+                break;
+            }
+            waited += 1;
+            if waited > 300 {
+                break;
+            }
+        }
+        let _ = closed_by_us;
+        let Some((sa, sp)) = states else { return Err(Failure::new("harness", "no peer entry".to_string())) };
+        for (i, got) in [(0usize, sa), (1usize, sp)] {
+            if mstate_of(got) != Some(m[i]) {
+                return Err(Failure::new("driver-state", ctx(&format!("the daemon's {} connection slot is in {:?}, reference model says {:?}", if i == 0 { "outbound" } else { "inbound" }, got, m[i])))
+                    .with("sym", format!("{sym:?}"))
+                    .with("pre_own", format!("{:?}", pre[r]))
+                    .with("pre_other", format!("{:?}", pre[o]))
+                    .with("got", format!("{got:?}"))
+                    .with("want", format!("{:?}", m[i])));
+            }
+        }
+        for i in 0..2 {
+            let name = if i == 0 { "outbound" } else { "inbound" };
+            match &exp.down[i] {
+                None => {
+                    if taps[i].is_some() && (seen[i].closed || !seen[i].notifications.is_empty()) {
+                        return Err(Failure::new("driver-down", ctx(&format!("the {name} connection stays up in the reference model; the daemon sent {:?} and closed = {}", seen[i].notifications, seen[i].closed))).with("sym", format!("{sym:?}")));
+                    }
+                }
+                Some(d) => {
+                    if taps[i].is_none() {
+                        continue; // closed by the remote side itself
+                    }
+                    let want: Option<(u8, u8)> = match d {
+                        Down::Collision => Some((6, 7)),
+                        // RFC 6608: 1 = OpenSent, 2 = OpenConfirm, 3 = Established
+                        Down::FsmError(code) => Some((5, *code)),
+                        Down::BadPeerAs => Some((2, 2)),
+                        _ => None,
+                    };
+                    if !seen[i].closed {
+                        return Err(Failure::new("driver-down", ctx(&format!("the {name} connection goes down in the reference model ({d:?}); the daemon left it open (sent {:?})", seen[i].notifications))).with("sym", format!("{sym:?}")));
+                    }
+                    match want {
+                        Some(w) if !seen[i].notifications.contains(&w) => {
+                            return Err(Failure::new(if *d == Down::Collision { "driver-collision" } else { "driver-notification" }, ctx(&format!("the {name} connection goes down for {d:?}: expected NOTIFICATION code/sub-code {w:?} before the close, the daemon sent {:?}", seen[i].notifications)))
+                                .with("want", format!("{w:?}")));
+                        }
+                        None if !seen[i].notifications.is_empty() => {
+                            return Err(Failure::new("driver-notification", ctx(&format!("the {name} connection goes down for {d:?}: no NOTIFICATION expected, the daemon sent {:?}", seen[i].notifications))).with("want", "none"));
+                        }
+                        _ => {}
+                    }
+                    taps[i] = None;
+                }
+            }
+        }
+        if *sym == Sym::Connected && pre[r] == MState::Idle {
+            if seen[r].opens.len() != 1 || seen[r].opens[0] != (LOCAL_AS, local_id) {
+                return Err(Failure::new("driver-open", ctx(&format!("a new connection must be sent one OPEN with AS {LOCAL_AS} and identifier {local_id:#x}; the daemon sent {:?}", seen[r].opens))));
+            }
+        } else if !seen[0].opens.is_empty() || !seen[1].opens.is_empty() {
+            return Err(Failure::new("driver-open", ctx("an OPEN was sent on an existing connection")));
+        }
+        if *sym == Sym::OpenOk && pre[r] == MState::OpenSent && exp.down[r].is_none() && seen[r].keepalives == 0 {
+            return Err(Failure::new("driver-open", ctx("an acceptable OPEN was not answered with a KEEPALIVE")));
+        }
+        if exp.down.iter().any(|d| d == &Some(Down::Collision)) {
+            info.nontrivial = true;
+            info = info.class(if pre[o] == MState::Established { "driver/collision/established-survives" } else { "driver/collision/both-openconfirm" });
+        }
+        if let Some(Down::FsmError(code)) = &exp.down[r] {
+            info = info.class(match code { 1 => "driver/fsm-error/opensent", 2 => "driver/fsm-error/openconfirm", _ => "driver/fsm-error/established" });
+        }
+        if exp.established {
+            info = info.class("driver/reached-established");
+        }
+        if exp.close {
+            info = info.class("driver/second-connection-same-role");
+        }
+    }
+    Ok(info)
+}
+
+fn arb_driver_sym() -> impl Strategy<Value = Sym> {
+    prop_oneof![
+        6 => Just(Sym::Connected),
+        7 => Just(Sym::OpenOk),
+        1 => Just(Sym::OpenBadAs),
+        6 => Just(Sym::Keepalive),
+        2 => Just(Sym::Update),
+        1 => Just(Sym::Notification),
+        1 => Just(Sym::Disconnected),
+    ]
+}
+
+pub fn arb_driver_case(max_len: usize) -> impl Strategy<Value = Case> {
+    // half of the cases start from a situation in which a collision is one or two inputs away
+    let preamble = prop_oneof![
+        4 => Just(vec![]),
+        2 => any::<bool>().prop_map(|p| vec![(p, Sym::Connected), (!p, Sym::Connected)]),
+        2 => any::<bool>().prop_map(|p| vec![(p, Sym::Connected), (p, Sym::OpenOk), (!p, Sym::Connected)]),
+        1 => any::<bool>().prop_map(|p| vec![(p, Sym::Connected), (p, Sym::OpenOk), (p, Sym::Keepalive), (!p, Sym::Connected)]),
+    ];
+    (any::<bool>(), prop_oneof![3 => proptest::sample::select(ID_PAIRS.to_vec()), 1 => (1u32..=u32::MAX, 1u32..=u32::MAX)], preamble, proptest::collection::vec((any::<bool>(), arb_driver_sym()), 1..=max_len))
+        .prop_map(|(local_id_higher, ids, mut seq, tail)| {
+            seq.extend(tail);
+            Case { local_id_higher, ids, local_hold: 90, remote_hold: 90, seq }
+        })
 }
